@@ -337,8 +337,17 @@ def tz_model(ctx, rule):
     tl = module_literal(ctx.repo, "dateparser/timezones.py", "timezone_info_list")
     nested = [n for n in f.node.body if isinstance(n, ast.FunctionDef)]
     loops = [n for n in f.node.body if isinstance(n, ast.For)]
-    if len(nested) != 1 or len(loops) != 1 or len(f.node.body) - (1 if ast.get_docstring(f.node) else 0) != 2:
-        raise AnalysisError(rule, "build_tz_offsets: expected one nested helper and one loop nest")
+    if not nested and len(loops) == 1:
+        # the helper lifted out of the generator: the module-level function of the same module that the loop nest calls in its yields
+        called = {ast.unparse(c.func) for y in ast.walk(loops[0]) if isinstance(y, ast.Yield) and y.value is not None
+                  for c in ast.walk(y.value) if isinstance(c, ast.Call) and isinstance(c.func, ast.Name)}
+        cands = [g_.node for g_ in ix.funcs.values() if g_.module is f.module and g_.parent is None and g_.cls is None
+                 and isinstance(g_.node, ast.FunctionDef) and g_.node.name in called]
+        if len(cands) == 1:
+            nested = cands
+    rest = [n for n in f.node.body if not isinstance(n, (ast.FunctionDef, ast.For)) and not (isinstance(n, ast.Expr) and isinstance(n.value, ast.Constant))]
+    if len(nested) != 1 or len(loops) != 1 or rest:
+        raise AnalysisError(rule, "build_tz_offsets: expected one helper (nested or module-level) and one loop nest")
     helper = nested[0]
     sink = f.params()[0]
 
